@@ -32,3 +32,17 @@ prop("C13",
      not_decided=["parse-equivalence clause for conforming documents (needs tree-construction semantics, C01)"],
      explanation="is_optional_start/is_optional_end proved against the standard's optional-tag rules for every "
                  "tag name and every neighbour token; __iter__/slider proved step-wise to only drop tokens.")
+
+
+prop("C16",
+     level="proof",
+     level_text="Exhaustive ground obligations over every parse-error site found in the AST of html5parser.py, _tokenizer.py and "
+                "_inputstream.py on each run (code has a template in constants.E whose placeholders the site supplies; every "
+                "template formats; `strict` is read only in parseError; nothing but _ReparseException is caught), plus a proof "
+                "of HTMLParser.parseError's contract for all codes/variables/list contents: it records (position, code, vars) "
+                "and raises ParseError iff strict, after recording -- hence strict raises at the first recorded error.",
+     level_note="Trusted: pyvc, z3, CPython's ast/% formatting for the ground part. Not decided here: that no other exception type "
+                "escapes (C03's coverage) and that conforming documents record no errors (needs C01). Positions: line>=1, col>=0 "
+                "are taken from the stream contract (C05).",
+     not_decided=["no other exception type escapes parsing (C03 components)", "conforming documents record no errors (C01)"],
+     explanation="227+ error sites enumerated from the AST each run; parseError proved against its contract.")
